@@ -398,7 +398,11 @@ func (p *Program) verifyFunction(key string) *FuncResult {
 		}
 		nReq := len(ctx.assumes)
 		g.entry = st.clone()
+		g.applyGhostSets(true, "", 0, nil, st)
 		g.execBody(st, "true")
+		if fc != nil && g.ghostSetsApplied != len(fc.GhostSets) {
+			g.unsupported = append(g.unsupported, fmt.Sprintf("contract-stale: %s: %d of %d ghost assignments found their anchor", key, g.ghostSetsApplied, len(fc.GhostSets)))
+		}
 		// vacuity: the precondition must be satisfiable
 		g.obls = append([]*Obligation{{Name: key + ".requires.sat", Kind: "cover", Fn: key, Desc: "precondition satisfiable", NAssume: nReq, Reach: "true", Cond: "false", ExpectSat: true, ctx: ctx}}, g.obls...)
 		// returns
